@@ -16,7 +16,7 @@ def FreshStream (s' : State) (st : Stream) : Prop :=
 def StreamsRel (s s' : State) : Prop := ∀ st ∈ s'.streams, st ∈ s.streams ∨ FreshStream s' st
 
 theorem streamsRel_of_eq {s s' : State} (h : s'.streams = s.streams) : StreamsRel s s' :=
-  fun st hst => .inl (h ▸ hst)
+  fun _ hst => .inl (h ▸ hst)
 
 theorem streamSend_streamsRel {s0 s s' : State} {c o : Nat} (h0 : s.streams = s0.streams)
     (hh : streamSend s c o = .ok s') : StreamsRel s0 s' := by
